@@ -1153,6 +1153,11 @@ theorem src_truediv_num_is_model : py_truediv_num = divsZ := by funext p c; exac
 theorem src_pow_is_model (p : ZPoly) (n : Int) (ek : ExpKind) (hc : copyZ p none = p) :
     Py.toPowRes (py_pow p n ek) = powZ p n ek := Src.pow p n ek hc
 
+/-- `Poly.__call__` on a number, for each value of the flag `horner` ("auto" / True / False): the empty Poly answers its
+    zero, `value == 0` answers `self[0]`, the Horner-like scheme (closure `horner_step`, `reduce` over the descending
+    terms, the final `value ** last_power`) and the direct sum over the ascending terms -/
+theorem src_call_is_model : py_call = callZ := by funext p v h; exact Src.call p v h
+
 /-- the hypothesis of `src_pow_is_model` is the representation invariant `Good` (distinct powers, no stored zero), which
     every instance of a history has (`zval_good`) -/
 theorem src_pow_hyp_of_good {p : ZPoly} (h : Good p) : copyZ p none = p := by
